@@ -30,8 +30,8 @@ Feed(e) == /\ pst' = ChanApply(pst, e).p
            /\ pbad' = pbad \cup ChanApply(pst, e).bad
 
 Boot == [K EXCEPT !.ready = [i \in 1..NT |-> HStep(i)]]
-H(t, c) == [w |-> "t", t |-> t, c |-> c, at |-> K.nh]
-HE(t, c) == [w |-> "e", t |-> t, c |-> c, at |-> K.nh]
+H(t, c) == [w |-> "t", t |-> t, c |-> c, at |-> K.nh, cyc |-> K.cycle]
+HE(t, c) == [w |-> "e", t |-> t, c |-> c, at |-> K.nh, cyc |-> K.cycle]
 ResOf(r) == IF ~IsExc(r) THEN "ok" ELSE IF IsCancel(r) THEN "cancelled" ELSE r.e
 
 Ev(ev, t, op, h, res, item, m) ==
